@@ -6,9 +6,15 @@ import glob, os, sys, subprocess, shutil, tempfile, hashlib
 V = os.path.dirname(os.path.dirname(os.path.abspath(__file__)))
 sys.path.insert(0, V)
 from rules.claims import CLAIMS
-ids = sys.argv[1:] or sorted(CLAIMS)
+args = sys.argv[1:]
+patches = None
+if '--patch' in args:          # benign.py --patch <file> [ID ...]: evaluate one candidate control (full violation lines)
+    i = args.index('--patch')
+    patches = [args[i + 1]]
+    del args[i:i + 2]
+ids = args or sorted(CLAIMS)
 bad = 0
-for patch in sorted(glob.glob(os.path.join(V, 'selftest', 'benign', '*.patch'))):
+for patch in (patches or sorted(glob.glob(os.path.join(V, 'selftest', 'benign', '*.patch')))):
     d = tempfile.mkdtemp(prefix='lcv-benign-')
     try:
         for f in ('Cargo.toml', 'Cargo.lock', 'rust-toolchain', 'build.rs', 'README.md'):
@@ -24,7 +30,7 @@ for patch in sorted(glob.glob(os.path.join(V, 'selftest', 'benign', '*.patch')))
             p = subprocess.run([V + '/lcv', 'check', i, '--tier', 'quick'], env=env, stdout=subprocess.PIPE, stderr=subprocess.STDOUT, text=True)
             ok = p.returncode == 0
             bad += 0 if ok else 1
-            print('%-55s %s exit=%d %s' % (os.path.basename(patch), i, p.returncode, '' if ok else [l.strip()[:200] for l in p.stdout.split('\n') if 'violated:' in l or 'INCONCL' in l or 'INTERNAL' in l][:3]))
+            print('%-55s %s exit=%d %s' % (os.path.basename(patch), i, p.returncode, '' if ok else [l.strip()[:(2000 if patches else 200)] for l in p.stdout.split('\n') if 'violated:' in l or 'INCONCL' in l or 'INTERNAL' in l][:(40 if patches else 3)]))
     finally:
         tag = hashlib.sha256(os.path.abspath(d).encode()).hexdigest()[:8]
         shutil.rmtree(d, ignore_errors=True)
